@@ -28,6 +28,9 @@ import (
 // name -> path ("" = cookie without Path attribute: the empty string is a prefix of every path)
 var jarNames = []struct{ name, path string }{
 	{"root", "/"}, {"a1", "/a"}, {"a2", "/a"}, {"ab", "/a/b"}, {"xab", "/ab"}, {"np1", ""}, {"np2", ""}, {"b1", "/b"},
+	// cookie names are case-sensitive: these are different cookies from their lower-case twins,
+	// bound to the same paths so that both match the same requests
+	{"ROOT", "/"}, {"A1", "/a"}, {"Np1", ""}, {"NP1", ""},
 }
 
 var jarHosts = []string{"h1.test", "h2.test", "h1.test:8080", "h2.test:9090", "h3.test:8080", "h3.test"}
@@ -157,6 +160,16 @@ func (s *jarSpec) put(w *jarWrite) {
 	s.live[key] = &jarEntry{w: w}
 }
 
+// caseTwin: was a cookie whose name differs from w's only in letter case written for w's host?
+func (s *jarSpec) caseTwin(w *jarWrite) bool {
+	for _, o := range s.writes {
+		if o.hostname == w.hostname && o.ck.Name != w.ck.Name && strings.EqualFold(o.ck.Name, w.ck.Name) && s.gone[o.ck.Value] != "released" {
+			return true
+		}
+	}
+	return false
+}
+
 func (s *jarSpec) release() {
 	for k, e := range s.live {
 		s.gone[e.w.ck.Value] = "released"
@@ -251,6 +264,8 @@ func (s *jarSpec) judge(now time.Time, host, path string, got []retCookie, wire 
 				cls := "other" + ctx()
 				lv := s.live[hn+"\x00"+r.Name]
 				switch {
+				case s.caseTwin(w):
+					cls = "name-differs-only-in-case"
 				case isV6(host) && (hostHasPort(w.host) != hostHasPort(host) || (lv != nil && hostHasPort(lv.w.host) != hostHasPort(host))):
 					cls = "host-with-port|ipv6-literal"
 				case !isV6(host) && (hostHasPort(w.host) || (lv != nil && hostHasPort(lv.w.host))):
@@ -328,6 +343,9 @@ func (s *jarSpec) judge(now time.Time, host, path string, got []retCookie, wire 
 			// the reversed prefix test alone explains this one, whatever else is true of the cookie
 			out = append(out, jarFinding{"jar|path-prefix-reversed", fmt.Sprintf("cookie with path %q withheld for request path %q", w.ck.Path, path), retCookie{w.ck.Name, w.ck.Value, w.ck.Path}})
 			continue
+		case s.caseTwin(w):
+			// another cookie of this host has the same name in different letter case
+			cls = "name-differs-only-in-case"
 		case w.ck.AlsoExpires < 0 && w.ck.ExpKind == expMaxAge:
 			// Set-Cookie with a past Expires and a positive Max-Age: Max-Age decides, the cookie lives
 			cls = "max-age-overridden-by-expires"
